@@ -257,3 +257,32 @@ impl Loader<anyhow::Error> for WorkspaceLoader<'_> {
         }
     }
 }
+
+/// Verification hooks: read-only access to crate-private functions and state.
+#[cfg(oal_verif)]
+pub mod verif {
+    use super::{unicode, Locator, Workspace};
+    use std::ops::Range;
+
+    pub fn position_to_utf8(text: &str, position: lsp_types::Position) -> usize {
+        unicode::position_to_utf8(text, position)
+    }
+
+    pub fn utf8_to_position(text: &str, index: usize) -> lsp_types::Position {
+        unicode::utf8_to_position(text, index)
+    }
+
+    pub fn utf8_range_to_position(text: &str, range: Range<usize>) -> lsp_types::Range {
+        unicode::utf8_range_to_position(text, range)
+    }
+
+    /// Returns the server's copy of a document, if any.
+    pub fn document<'a>(ws: &'a Workspace, loc: &Locator) -> Option<&'a str> {
+        ws.docs.get(loc).map(|s| s.as_str())
+    }
+
+    /// Returns the locators of all documents held by the workspace.
+    pub fn documents(ws: &Workspace) -> Vec<Locator> {
+        ws.docs.keys().cloned().collect()
+    }
+}
